@@ -41,12 +41,17 @@ func runC03(w *World, r *Report) {
 	r.Rule("C03/WIRING", "Atomic, CleanupOnFail, KeepHistory and the wait options are never fed from a differently named option; upgrade --install carries Atomic over", 3)
 	checkWiring(w, r, "C03/WIRING", map[string]bool{"Atomic": true, "CleanupOnFail": true, "KeepHistory": true, "WaitForJobs": true, "WaitStrategy": true, "Force": true, "Recreate": true, "Timeout": true})
 	checkCarried(w, r, "C03/WIRING", []string{"Atomic"})
+	checkFlagBinding(w, r, "C03/WIRING", map[string]bool{"Atomic": true, "CleanupOnFail": true, "KeepHistory": true, "WaitForJobs": true, "Force": true, "Recreate": true, "Timeout": true})
 	c03ErrSwallowed(w, r)
 	r.Rule("C03/ERR-COLLECT", "in pkg/action and pkg/kube a list of errors that was filled or received from a call reaches a success return only over an edge on which it is empty (or is itself handed on)", 4)
 	errCollect(w, r, "C03/ERR-COLLECT", []string{"pkg/action", "pkg/kube"}, nil)
 	c03OldStaysAndCleanup(w, r, ef)
 	c03Atomic(w, r, ef)
 	c03UninstallAccepts(w, r)
+	r.Rule("C03/ERROR-KEPT", "in pkg/action and pkg/kube an error carried across loop iterations is never overwritten by a value that may be nil", 0)
+	if errOverwritten(w, r, "C03/ERROR-KEPT", []string{"pkg/action", "pkg/kube"}) == 0 {
+		r.OKTrivial("C03/ERROR-KEPT", "none", "-", "no error is carried across loop iterations")
+	}
 }
 
 // ---- failers -----------------------------------------------------------------------------------
@@ -376,6 +381,12 @@ func errOperand(ret *ssa.Return, ex exitPoint) ssa.Value {
 					if p == ex.Pred {
 						return phi.Edges[k]
 					}
+				}
+			}
+			// defer-spilled result: the value stored into the result slot by the block this exit comes from
+			if ex.Pred != nil {
+				if sv, ok := spilledResults(ret, i)[ex.Pred]; ok && sv != v {
+					return sv
 				}
 			}
 			return v
